@@ -83,7 +83,10 @@ func genAwk(r *rand.Rand, id string, tier string) string {
 	}
 	var ops []string
 	for i, n := 0, 1+r.Intn(6); i < n; i++ {
-		switch r.Intn(16) {
+		switch r.Intn(17) {
+		case 16:
+			// an awkward Operator (nil, typed nil pointers with value / pointer receivers, empty texts) as comparand
+			ops = append(ops, "q condop O"+[]string{"z", "y", "-", "c0", "c200", "u2:" + hx("") + ":" + hx("ctx"), "v3:" + hx("") + ":" + hx("list")}[r.Intn(7)])
 		case 0, 1, 2:
 			ops = append(ops, "push "+genAwkVal(r).String()+" "+genAwkVal(r).String())
 		case 3:
@@ -166,6 +169,17 @@ func runAwk(payload string) string {
 					_, _ = c.Unmarshal()
 					_ = c.Len()
 					_ = c.IsNesting()
+				case "condop":
+					o := opOf(t[2][1:])
+					c := stackage.Cond("k", o, "x")
+					_, _, _, _ = c.String(), c.IsEqual(c), c.Valid(), c.Operator()
+					var d stackage.Condition
+					d.Init()
+					d.SetKeyword("k").SetOperator(o).SetExpression(s)
+					_, _, _ = d.String(), d.IsEqual(c), c.IsEqual(d)
+					_, _ = d.Unmarshal()
+					t := stackage.And().Push(c, d)
+					_, _ = t.String(), t.IsEqual(t)
 				case "xfer":
 					x, _ := parseV(t[2:])
 					return b01(s.Transfer(Build(x)))
